@@ -44,12 +44,7 @@ def convert(ex, ins):
         return
     if fs in ('F64', 'F32') and ts == 'Int':
         tk = vc.int_kind(tts)
-        lo, hi = INT_RANGES[tk]
-        r = '(fp.to_real %s)' % x.term
-        tr = '(ite (>= %s 0.0) (to_int %s) (- (to_int (- %s))))' % (r, r, r)
-        u = vc.ufun('conv.f2i.' + fs + '.' + tk, [fs], 'Int')
-        fin = and_(not_('(fp.isNaN %s)' % x.term), not_('(fp.isInfinite %s)' % x.term))
-        t = '(ite (and %s (<= %s %s) (<= %s %s)) %s (%s %s))' % (fin, num(lo), tr, tr, num(hi), tr, u, x.term)
+        t = f2i_term(vc, x.term, fs, tk)
         ex.setv(ins, V(t, 'Int', tts))
         vc.range_assume(ex.vals[ins['n']], ex.reach)
         return
@@ -90,6 +85,18 @@ def convert(ex, ins):
         ex.vals[ins['n']] = V(x.term, ts, tts)
         return
     raise Unsupported('conversion %s -> %s' % (fts, tts))
+
+
+def f2i_term(vc, x, fs, tk):
+    """Go float -> integer conversion: truncation toward zero when the value fits, otherwise an
+    unspecified (implementation-defined) value"""
+    lo, hi = INT_RANGES[tk]
+    tk = {'int': 'int64', 'uint': 'uint64', 'uintptr': 'uint64'}.get(tk, tk)
+    r = '(fp.to_real %s)' % x
+    tr = '(ite (>= %s 0.0) (to_int %s) (- (to_int (- %s))))' % (r, r, r)
+    u = vc.ufun('conv.f2i.' + fs + '.' + tk, [fs], 'Int')
+    fin = and_(not_('(fp.isNaN %s)' % x), not_('(fp.isInfinite %s)' % x))
+    return '(ite (and %s (<= %s %s) (<= %s %s)) %s (%s %s))' % (fin, num(lo), tr, tr, num(hi), tr, u, x)
 
 
 def need_fromrune(vc):
@@ -406,3 +413,78 @@ def model(name, modifies=(), doc=''):
         MODELS[name] = {'fn': fn, 'modifies': list(modifies), 'doc': doc}
         return fn
     return deco
+
+
+def _args(ex, ins):
+    return [ex.op(a) for a in ins['call']['args']]
+
+
+def pure(name, skip_recv=False, doc=''):
+    """dependency function treated as a total, side-effect-free, deterministic function of its arguments
+    (an uninterpreted function symbol); listed as a trusted model in every evidence file"""
+    def fn(ex, ins, name=name, skip=skip_recv):
+        vc = ex.vc
+        args = _args(ex, ins)
+        if skip:
+            args = args[1:]
+        rs = vc.sort_of(ins['t'])
+        f = vc.ufun('ext.' + name, [a.sort for a in args], rs)
+        t = '(%s %s)' % (f, ' '.join(a.term for a in args)) if args else f
+        ex.setv(ins, V(t, rs, ins['t']))
+        v = ex.vals[ins['n']]
+        vc.range_assume(v, ex.reach)
+    MODELS[name] = {'fn': fn, 'modifies': [], 'doc': doc or 'total pure function (uninterpreted)'}
+
+
+CONV = 'github.com/pip-services3-gox/pip-services3-commons-gox/convert.'
+for _n, _m in [('_TBooleanConverter', 'ToBoolean'), ('_TDateTimeConverter', 'ToDateTime'), ('_TDoubleConverter', 'ToDouble'),
+               ('_TDurationConverter', 'ToDuration'), ('_TFloatConverter', 'ToFloat'), ('_TIntegerConverter', 'ToInteger'),
+               ('_TLongConverter', 'ToLong'), ('_TStringConverter', 'ToString')]:
+    pure('(*%s%s).%s' % (CONV, _n, _m), skip_recv=True)
+for _n in ['math.Acos', 'math.Asin', 'math.Atan', 'math.Cos', 'math.Exp', 'math.Log', 'math.Log10', 'math.Sin', 'math.Sqrt', 'math.Tan',
+           'strconv.Itoa', 'strings.ToLower', 'strings.ToUpper', 'strings.Trim', 'strings.Contains', 'time.Unix', 'time.Date',
+           '(time.Time).After', '(time.Time).Before', '(time.Time).Equal', '(time.Time).Sub', '(time.Time).Unix', '(time.Time).Weekday']:
+    pure(_n)
+
+
+def fp_round(name, mode):
+    def fn(ex, ins, mode=mode):
+        x = _args(ex, ins)[0]
+        ex.setv(ins, V('(fp.roundToIntegral %s %s)' % (mode, x.term), 'F64', ins['t']))
+    MODELS[name] = {'fn': fn, 'modifies': [], 'doc': 'IEEE roundToIntegral ' + mode}
+
+
+fp_round('math.Trunc', 'RTZ')
+fp_round('math.Floor', 'RTN')
+fp_round('math.Ceil', 'RTP')
+fp_round('math.Round', 'RNA')
+
+
+@model('math.Abs', doc='IEEE abs')
+def _abs(ex, ins):
+    x = _args(ex, ins)[0]
+    ex.setv(ins, V('(fp.abs %s)' % x.term, 'F64', ins['t']))
+
+
+@model('(time.Duration).Milliseconds', doc='nanoseconds / 1e6 truncated')
+def _ms(ex, ins):
+    x = _args(ex, ins)[0]
+    ex.setv(ins, V('(go.quo %s 1000000)' % x.term, 'Int', ins['t']))
+
+
+@model('time.Now', doc='some time value (clock)')
+def _now(ex, ins):
+    ex.setv(ins, V(ex.vc.declare(ex.nm('now'), 'Time'), 'Time', ins['t']))
+
+
+@model('math/rand.Float32', doc='some float32 in [0,1)')
+def _rnd(ex, ins):
+    c = ex.vc.declare(ex.nm('rnd'), 'F32')
+    ex.vc.assume('(and (fp.leq ((_ to_fp 8 24) RNE 0.0) %s) (fp.lt %s ((_ to_fp 8 24) RNE 1.0)))' % (c, c), ex.reach)
+    ex.setv(ins, V(c, 'F32', ins['t']))
+
+
+@model('github.com/pip-services3-gox/pip-services3-commons-gox/errors.NewUnsupportedError', doc='returns a fresh non-nil *ApplicationError')
+def _unsupported(ex, ins):
+    ref = new_ref(ex, ins['n'])
+    ex.vals[ins['n']] = V(ref, 'Int', ins['t'])
